@@ -8,7 +8,7 @@ use tx3_tir::encoding::AnyTir;
 use tx3_tir::reduce::ArgValue;
 use vf_pipeline::*;
 
-const SRC: &str = r#"
+const SRC_TEMPLATE: &str = r#"
 party Sender;
 party Receiver;
 tx one_output(quantity: Int) {
@@ -57,7 +57,38 @@ tx min_utxo_first(quantity: Int) {
     output first { to: Receiver, amount: min_utxo(first), }
     output { to: Sender, amount: source - min_utxo(first) - fees, }
 }
+tx kitchen_sink(quantity: Int) {
+    input source { from: Sender, min_amount: Ada(2000000) + fees, }
+    collateral { from: Sender, min_amount: fees, }
+    reference dep { ref: 0x2626262626262626262626262626262626262626262626262626262626262626#1, }
+    mint { amount: AnyAsset(0xOWN_POLICY, "ABC", quantity), redeemer: (), }
+    output { to: Receiver, amount: Ada(2000000) + AnyAsset(0xOWN_POLICY, "ABC", quantity), datum: Stamp { current_slot: 1, expiry_slot: 2, }, }
+    output { to: Sender, amount: source - Ada(2000000) - fees, }
+    cardano::plutus_witness { version: 3, script: 0x5101010023259800a518a4d136564004ae69, }
+    metadata { 674: "sink", }
+    validity { since_slot: 101684141, until_slot: 101694141, }
+    signers { Sender, }
+}
+tx bare_mint(quantity: Int) {
+    input source { from: Sender, min_amount: Ada(2000000) + fees, }
+    mint { amount: AnyAsset(0xOWN_POLICY, "ABC", quantity), redeemer: (), }
+    output { to: Receiver, amount: Ada(2000000) + AnyAsset(0xOWN_POLICY, "ABC", quantity), }
+    output { to: Sender, amount: source - Ada(2000000) - fees, }
+}
+tx bare_burn(quantity: Int) {
+    input source { from: Sender, min_amount: Ada(2000000) + fees, }
+    burn { amount: AnyAsset(0xOWN_POLICY, "ABC", 1), redeemer: (), }
+    output { to: Sender, amount: source - fees, }
+}
 "#;
+
+/// the templates, with OWN_POLICY replaced by the hash of the very script `kitchen_sink` witnesses (so that anything an
+/// instance remembers about that script is also what a later transaction minting under the policy could pick up)
+fn src() -> String {
+    use tx3_cardano::pallas::ledger::traverse::ComputeHash;
+    let script = tx3_cardano::pallas::ledger::primitives::conway::PlutusScript::<3>(hex::decode("5101010023259800a518a4d136564004ae69").unwrap().into());
+    SRC_TEMPLATE.replace("OWN_POLICY", &hex::encode(script.compute_hash()))
+}
 
 fn args(quantity: i128) -> BTreeMap<String, ArgValue> {
     BTreeMap::from([
@@ -68,11 +99,11 @@ fn args(quantity: i128) -> BTreeMap<String, ArgValue> {
 }
 
 fn store() -> FixedStore {
-    FixedStore(vec![lovelace_utxo(SENDER, 50_000_000_000, 0)])
+    FixedStore(vec![lovelace_utxo(SENDER, 50_000_000_000, 0), lovelace_utxo(SENDER, 40_000_000_000, 1)])
 }
 
 fn resolve(c: &mut Compiler, name: &str, quantity: i128) -> Result<tx3_tir::compile::CompiledTx, Error> {
-    let tx = lower(SRC, name);
+    let tx = lower(&src(), name);
     vf_pipeline::begin_case(format!("resolve {name} quantity={quantity}"));
     pollster::block_on(tx3_resolver::resolve_tx(AnyTir::V1Beta0(tx), &args(quantity), c, &store(), 10))
 }
@@ -90,7 +121,7 @@ enum Step {
 
 fn constant_tir(name: &str) -> AnyTir {
     // the stages of one pass, without the compiler: only for templates without compiler built-ins
-    let tx = AnyTir::V1Beta0(lower(SRC, name));
+    let tx = AnyTir::V1Beta0(lower(&src(), name));
     let tx = tx3_tir::reduce::apply_args(tx, &args(3_000_000)).unwrap();
     let tx = tx3_tir::reduce::apply_fees(tx, 200_000).unwrap();
     let tx = tx3_tir::reduce::reduce(tx).unwrap();
@@ -112,21 +143,24 @@ fn show(r: &Result<tx3_tir::compile::CompiledTx, Error>) -> String {
 
 fn main() {
     vf_pipeline::start_watchdog(45);
-    // BOUND: histories of length 0..=2 over 9 kinds of earlier use, 6 target templates (two with redeemers and Plutus
-    // witnesses of different versions), one parameter setting.
+    // BOUND: histories of length 0..=2 over 11 kinds of earlier use, 11 target templates (two with redeemers and Plutus
+    // witnesses of different versions; a "kitchen sink" carrying every optional section - collateral, reference input,
+    // witnessed script, metadata, validity, signers - as an earlier use, and bare mint / burn templates under the policy of
+    // that witnessed script which carry none of those sections), one parameter setting, a store of two UTxOs.
     let steps = [
         Step::Resolve("one_output"), Step::Resolve("two_outputs"), Step::Resolve("uses_min_utxo"), Step::Resolve("min_utxo_first"),
         Step::ResolveFailing("two_outputs"), Step::Compile("one_output"), Step::Compile("two_outputs"),
-        Step::Resolve("mint_v3"), Step::Resolve("mint_v2"), Step::Resolve("delayed"),
+        Step::Resolve("mint_v3"), Step::Resolve("mint_v2"), Step::Resolve("delayed"), Step::Resolve("kitchen_sink"),
     ];
     let mut histories: Vec<Vec<Step>> = vec![vec![]];
     for a in steps { histories.push(vec![a]); }
     for a in steps { for b in steps { histories.push(vec![a, b]); } }
-    let targets = ["one_output", "two_outputs", "uses_min_utxo", "min_utxo_first", "mint_v2", "mint_v3", "reads_tip", "delayed"];
+    let targets = ["one_output", "two_outputs", "uses_min_utxo", "min_utxo_first", "mint_v2", "mint_v3", "reads_tip", "delayed", "kitchen_sink", "bare_mint", "bare_burn"];
     let mut cases = 0u64;
     for target in targets {
         let mut fresh = compiler(44, 155381, None);
         let a = resolve(&mut fresh, target, 3_000_000);
+        println!("VERIF-NOTE fresh outcome of {target}: {}", show(&a));
         for h in &histories {
             cases += 1;
             let mut used = compiler(44, 155381, None);
@@ -138,7 +172,7 @@ fn main() {
                 _ => false,
             };
             if !same {
-                let class = if target.contains("min_utxo") { "min-utxo-sized-from-remembered-body" } else if target.starts_with("mint_v") { "script-data-from-remembered-language" } else if target == "reads_tip" { "chain-tip-moved-by-an-earlier-transaction" } else { "other" };
+                let class = if target.starts_with("bare_") || h.iter().any(|s| format!("{s:?}").contains("kitchen_sink")) { "section-remembered-from-an-earlier-transaction" } else if target.contains("min_utxo") { "min-utxo-sized-from-remembered-body" } else if target.starts_with("mint_v") { "script-data-from-remembered-language" } else if target == "reads_tip" { "chain-tip-moved-by-an-earlier-transaction" } else { "other" };
                 println!("VERIF-WITNESS obligation=c20_pipeline/resolve_tx#history fn=resolve_tx input=history {h:?} then resolve {target} class={class} observed=fresh: {} / used: {} required=the same outcome as a fresh, identically configured instance",
                     show(&a), show(&b));
             }
